@@ -150,6 +150,20 @@ class C04:
             ins.append(("boundary", b))
         for b in P.well_known_call_programs():
             ins.append(("well-known-call", b))
+        for b in P.batch_programs() + P.sloppy_text_programs():
+            ins.append(("directed", b))
+        # the latin-1 text forms of bytes / bytearray with a text that is not what an encoder writes: every last byte, truncated
+        # and over-long UTF-8, code points above U+00FF
+        for t in range(0x7f, 0x100):
+            for body in (b"ab", b"", b"\xc3\xa9"):
+                txt = body + bytes([t])
+                x = b"X" + len(txt).to_bytes(4, "little") + txt
+                ins.append(("latin1", b"c_codecs\nencode\n(" + x + b"U\x06latin1tR."))
+                ins.append(("latin1", b"\x80\x02c__builtin__\nbytearray\n(" + x + b"U\x07latin-1tR."))
+        for txt in (b"\xc4\x80", b"\xe2\x82\xac", b"\xc3", b"\xc2\xc2", b"\xc3\xa9\xc3", b"\xf0\x9f\x98\x80", b"\xed\xa0\x80"):
+            x = b"X" + len(txt).to_bytes(4, "little") + txt
+            ins.append(("latin1", b"c_codecs\nencode\n(" + x + b"Vlatin1\ntR."))
+            ins.append(("latin1", b"\x80\x03cbuiltins\nbytearray\n(" + x + b"Vlatin-1\ntR."))
         corpus = corpus_files(ctx.scale(500, None))
         for b in corpus:
             ins.append(("corpus", b))
@@ -478,6 +492,7 @@ class C16:
     def run(self, ctx):
         rng = ctx.rng
         ins = own_corpus("C16") + self.mark_programs() + corpus_files(ctx.scale(400, None)) + P.well_known_call_programs()
+        ins += P.batch_programs() + P.sloppy_text_programs()
         base = corpus_files(300) or [b"K\x01."]
         for _ in range(ctx.scale(800, 20000)):
             ins.append(P.mutate(rng, rng.choice(base)))
@@ -599,6 +614,10 @@ class C11:
             # keep the total offset: the first pickle gained 2 bytes (N.), drop one padding unit from the second
             ps = ([first] if first else []) + [(pad2[2:] if first and pad2[:2] == b"N0" else pad2) + b".", b"K\x07."]
             streams.append(ps)
+        # FRAME opcodes whose announced length is not what follows (the decoder ignores the length; what follows the pickle must not matter)
+        framed = [b"\x80\x04\x95" + n.to_bytes(8, "little") + body for n in (0, 1, 2, 3, 16, 40, 4000, 70000) for body in (b"K\x07.", b"]q\x00(K\x01e.", b"N.")]
+        for _ in range(ctx.scale(80, 800)):
+            streams.append([rng.choice(framed + small) for _ in range(rng.randint(2, 5))])
         longs = [b"V" + b"a" * 5000 + b"\n.", b"N.", b"V" + b"b" * 4500 + b"\n.", b"S'" + b"c" * 4200 + b"'\n.", b"I" + b"7" * 4100 + b"\n.",
                  b"P" + b"d" * 4097 + b"\n.", b"cmod\n" + b"e" * 6000 + b"\n.", b"V" + b"f" * 9000 + b"\n.", b"Vshort\n.", b"L" + b"1" * 4200 + b"L\n."]
         for _ in range(ctx.scale(25, 300)):
@@ -640,9 +659,10 @@ class C11:
                 single.setdefault((cfg, p), None)
         slines = [f"decp {cfg} - {hexs(p)}" for (cfg, p) in single]
         go, lean = run_both(lines)
-        sgo = C.run_sharded(C.run_go, slines)
-        for key, a in zip(list(single), sgo):
+        sgo, slean = run_both(slines)
+        for key, a, sl, ln in zip(list(single), sgo, slean, slines):
             single[key] = a
+            ctx.tie(ln, a, sl)        # each pickle alone: implementation vs model
         # pickles whose error is raised at their STOP (everything before executed, all bytes consumed): the
         # stream stays aligned after them. Detected by: the body followed by `N.` decodes alone, consuming all.
         at_stop = {}
@@ -768,6 +788,9 @@ class C14:
                 for b2 in smalls[:3]:
                     directed.append(a + sep + b2 + sep)
                     directed.append(a + sep + b2)
+        import pickle as _pickle
+        directed += P.sloppy_text_programs()
+        directed += [_pickle.dumps(o, pr) for o in (bytearray(b"abc"), b"", [bytearray(b"x"), b"y"], {"k": bytearray()}) for pr in (2, 3, 4, 5)]
         ins += directed
         force_all = set(directed)
         flat, sched_lines, meta = [], [], []
@@ -1307,6 +1330,9 @@ def payload_forms(s):
            ("BINBYTES", P.BINBYTES(s), "bytes"), ("BYTEARRAY8", P.BYTEARRAY8(s), "bytearray")]
     if len(s) < 256:
         out += [("SHORT_BINSTRING", P.SHORT_BINSTRING(s), "str2"), ("SHORT_BINBYTES", P.SHORT_BINBYTES(s), "bytes")]
+    if not any(c in s for c in b"'\\\n"):
+        # the payload bytes as they are between the quotes (legal for the string-escape codec whatever the bytes; repr never writes it)
+        out.append(("STRING-raw", b"S'" + s + b"'\n", "str2"))
     out.append(("BINUNICODE", P.BINUNICODE(s), "uni"))
     if len(s) < 256:
         out.append(("SHORT_BINUNICODE", P.SHORT_BINUNICODE(s), "uni"))
